@@ -4,6 +4,7 @@ pub mod c01;
 pub mod c13;
 pub mod c14;
 pub mod c15;
+pub mod c16;
 pub mod c18;
 pub mod common;
 
@@ -13,6 +14,7 @@ pub fn by_id(id: &str) -> Option<Box<dyn Property>> {
         "C13" => Box::new(c13::C13),
         "C14" => Box::new(c14::C14),
         "C15" => Box::new(c15::C15),
+        "C16" => Box::new(c16::C16),
         "C18" => Box::new(c18::C18),
         _ => return None,
     })
